@@ -386,7 +386,7 @@ var specC10 = &worldSpec{
 		W:        weights(map[string]int{"hop": 10, "save": 22, "prune": 3, "lvfo": 1, "dvf": 1, "setnil": 0, "reopen": 4}),
 		Backends: []string{"mem", "mem", "prefix"}},
 	Obs:  Observers{Reads: true, Hash: true, Proofs: true, Audit: true},
-	Rule: "(a) history of 12-45 steps with export/import hops: any retained version (empty tree, single leaf, root inherited from an earlier version) is exported through Exporter or CompressExporter->CompressImporter; the plain stream must equal the reference post-order (key,value,version,height) sequence exactly; the imported store (fresh handle) must have the reference hash, contents and proofs, only the imported version visible, only reachable nodes stored, and all later commits must return the reference hashes. (b) see TestC10Hostile/TestC10Big. non-trivial (a) = a hop of a version with >=3 nodes of >=2 node versions followed by >=1 writing commit",
+	Rule: "(a) history of 12-45 steps with export/import hops: any retained version (empty tree, single leaf, root inherited from an earlier version) is exported through Exporter or CompressExporter->CompressImporter; the plain stream must equal the reference post-order (key,value,version,height) sequence exactly; the imported store (read through a fresh handle as state sync does, or - in half of the hops - through the importing handle itself, which in a quarter of the hops had been written to and emptied again before Import) must have the reference hash, contents and proofs, only the imported version visible, only reachable nodes stored, and all later commits must return the reference hashes. (b) see TestC10Hostile/TestC10Big. non-trivial (a) = a hop of a version with >=3 nodes of >=2 node versions followed by >=1 writing commit",
 	Nontrivial: func(w *World) bool { return w.Labels["hop_multi_version"] && w.Labels["commit_after_hop"] },
 	Known:      knownCommon,
 	After: func(w *World, op Op) *Violation {
